@@ -80,11 +80,11 @@ structure RunResult where
   error : Option Err := none         -- an exception escaped (status ≠ 0); later work is not done
 deriving Repr, Inhabited
 
-/-- `prefix + sep + name`, or the bare name without a prefix (`header_name == sep` is replaced by the prefix) -/
+/-- `prefix + sep + name`, or the bare name without a prefix -/
 def withPrefix (pfx : Option Str) (sep name : Str) : Str :=
   match pfx with
   | none => name
-  | some p => if name = sep then p else p ++ sep ++ name
+  | some p => p ++ sep ++ name
 
 def relStr (rel : List Str) : Str := if rel.isEmpty then ['.'] else joinWith ['/'] rel
 
@@ -112,7 +112,8 @@ def indexPage (c : WalkCfg) (pfx : Str) (rel : List Str) (subdirs files : List S
   match c.headers with
   | [] => .error .noHeaders
   | hc :: _ =>
-    let title := withPrefix (some pfx) c.sep (relStr rel)
+    -- the input directory itself (`rel_path == "."`) is titled with the prefix; a sub-directory with prefix, separator, path
+    let title := if rel.isEmpty then pfx else pfx ++ c.sep ++ relStr rel
     let entries := (if c.recursive then subdirs.map (· ++ lit "/index.rst") else []) ++
                    (files.filter isCMakeName).map stem
     .ok ({ hc, title, body := [.directive (lit "toctree") [] [(lit "maxdepth", lit "2")] (entries.map Elem.para)] } : Doc).render
@@ -167,6 +168,7 @@ end
 /-- what one input of `main` is -/
 inductive Input where
   | missing (name : Str)                       -- does not exist: `exit(-1)`
+  | special (name : Str)                       -- socket, FIFO, device file: an error is logged, nothing else happens
   | file (name : Str) (content : Str)          -- a lone file (base name)
   | dir (name : Str) (listing : List FsNode)   -- a directory; `name` = last element of its absolute path
 deriving Repr, Inhabited
@@ -179,6 +181,7 @@ def document (c : WalkCfg) (excl : List Str → Bool → Bool) (exclRoot : Bool)
   if exclRoot then (r, false) else
   match inp with
   | .missing _ => (r, true)
+  | .special _ => (r, false)
   | .file name content => (emitPage c c.pfx [] name content r, false)
   | .dir name listing => (walkDir c excl (c.pfx.getD name) [] listing r, false)
 
